@@ -128,6 +128,9 @@ def oracle_c15(res, i):
     if n['corr'] != n['corrfiles']:
         # (with `ignore_corrupted` an unreadable blob stays in place and is not counted)
         return f"MISMATCH corrupted_blobs_count {n['corr']}: {n['corrfiles']} blob files in the corrupted directory"
+    if n.get('both'):
+        return (f"MISMATCH {n['both']} blob id(s) of the work directory are also the id of a quarantined blob: an id was "
+                "used twice (the next quarantine would replace the quarantined file)")
     want_next = 0 if n['maxfile'] is None else n['maxfile'] + 1
     if n['next'] != want_next:
         return f"MISMATCH next_blob_id {n['next']} but the largest blob id on disk is {f['maxfile']}"
@@ -179,6 +182,19 @@ def oracle_c13(res, i):
         return None if out == 'alive' else 'MISMATCH background worker is dead'
     if c in ('settle', 'close', 'open'):
         return None if out == 'ok' else f'MISMATCH {c}: {out}'
+    if c == 'res' and i >= 3 and res['script'][i - 1] == 'clearfaults' and res['script'][i - 2] == 'quiesce' \
+            and res['script'][i - 3] == 'free' and out.startswith('#res'):
+        # one dump request was served to its end (worker idle, no closure in flight): every closed blob that holds
+        # records has its index on disk
+        st = None
+        for j in range(i - 1, -1, -1):
+            if res['impl'][j].startswith('#states'):
+                st = {t.split(':')[0]: t.split(':') for t in res['impl'][j].split()[1:]}
+                break
+        left = [t.split(':')[0] for t in out.split()[1:] if t.endswith(':m') and st and st.get(t.split(':')[0], ['', 'a', '0'])[1] == 'c'
+                and int(st[t.split(':')[0]][2]) > 0]
+        if left:
+            return f'MISMATCH the requested index dump completed but the index of closed blob(s) {",".join(left)} is still only in memory'
     if c == 'w':
         if not out.startswith('ok'):
             return f'MISMATCH write failed: {out}'
@@ -491,7 +507,18 @@ def oracle_c12(res, i):
         limit = int(_cfg(res, 'dirty', '33554432'))
         cur = _parse_f(out)
         act = [b for b in cur if b[1] == 'a']
-        if act and int(act[0][3]) > limit:
+        # while an injected fault is armed a sync may fail legitimately; the bound is due again after the first
+        # write / delete that follows `clearfaults`
+        armed, excused = False, False
+        for j in range(i):
+            t = res['script'][j].split()[0]
+            if t == 'fault':
+                armed, excused = True, True
+            elif t == 'clearfaults':
+                armed = False
+            elif t in ('w', 'd', 'fsync', 'close_active', 'restart', 'open') and not armed:
+                excused = False
+        if act and int(act[0][3]) > limit and not excused:
             return f'MISMATCH un-synced bytes of the active blob {act[0][3]} exceed the limit {limit} at quiescence'
         j = _prev_op(res, i)
         if j is not None:
